@@ -131,8 +131,8 @@ def c06_strata(tier: str) -> List[Stratum]:
     return [
         Stratum("every-length", 134 * scale(tier, 1, 20), lambda r, i: ug.gen_c06(r, i, True), systematic=True,
                 note="every length 0..400 with and without the magic (802 cases, 6 per scenario)"),
-        Stratum("model-codes", scale(tier, 512, 4096), lambda r, i: ug.gen_c06_models(r, i if tier != "quick" else r.randrange(4096)),
-                systematic=(tier != "quick"), note="thorough: all 65 536 model codes; quick: 4 096 sampled"),
+        Stratum("model-codes", 4096, lambda r, i: ug.gen_c06_models(r, i), systematic=True,
+                note="all 65 536 model codes in otherwise valid frames, 16 per scenario"),
         Stratum("random", scale(tier, 20000, 800000), lambda r, i: ug.gen_c06(r, i, False)),
     ]
 
